@@ -129,4 +129,51 @@ Qed.
 Corollary enumerate_read_only c : spec_enumerate_write (fun _ (v : A) => v) c = c.
 Proof. rewrite (enumerate_write_through (fun v => v)). apply map_id. Qed.
 
+(* ---------------- the same adaptor used again: same visits *)
+Theorem enumerate_twice_spec c : enumerate_twice A c = Done (spec_enumerate c, spec_enumerate c).
+Proof.
+  unfold enumerate_twice. rewrite enumerate_for_spec. unfold keep_e. rewrite enumerate_read_only.
+  rewrite enumerate_for_spec. reflexivity.
+Qed.
+
+Theorem reverse_twice_spec c : reverse_twice A c = Done (rev c, rev c).
+Proof. unfold reverse_twice. rewrite reverse_for_spec. unfold keep_r. rewrite map_id, reverse_for_spec. reflexivity. Qed.
+
+Theorem enumerate_nested_spec c :
+  enumerate_nested A c = Done (map (fun p => (p, Done (spec_enumerate c))) (spec_enumerate c)).
+Proof.
+  unfold enumerate_nested. rewrite enumerate_for_spec. unfold keep_e. rewrite enumerate_read_only.
+  f_equal. apply map_ext. intros p. rewrite enumerate_rvalue_spec. reflexivity.
+Qed.
+
+Theorem enumerate_reverse_nested_spec c :
+  enumerate_reverse_nested A c = Done (map (fun p => (p, Done (rev c))) (spec_enumerate c)).
+Proof.
+  unfold enumerate_reverse_nested. rewrite enumerate_for_spec. unfold keep_e. rewrite enumerate_read_only.
+  f_equal. apply map_ext. intros p. rewrite reverse_rvalue_spec. reflexivity.
+Qed.
+
+Theorem enumerate_after_modify_spec (g : A -> A) c :
+  enumerate_after_modify A g c = Done (spec_enumerate (map g c), map g c).
+Proof.
+  unfold enumerate_after_modify.
+  pose proof (enumerate_for_spec (keep_e A) (map g c)) as H. unfold enumerate_for, e_end in H.
+  rewrite map_length in H. unfold e_end. rewrite H. unfold keep_e. rewrite enumerate_read_only. reflexivity.
+Qed.
+
+Theorem reverse_after_modify_spec (g : A -> A) c :
+  reverse_after_modify A g c = Done (rev (map g c), map g c).
+Proof.
+  unfold reverse_after_modify.
+  pose proof (reverse_for_spec (keep_r A) (map g c)) as H. unfold reverse_for, r_begin in H.
+  rewrite map_length in H. unfold r_begin. rewrite H. unfold keep_r. rewrite map_id. reflexivity.
+Qed.
+
+Theorem nonempty_tests_spec c :
+  enumerate_nonempty_test A c = negb (length c =? 0) /\ reverse_nonempty_test A c = negb (length c =? 0).
+Proof.
+  unfold enumerate_nonempty_test, reverse_nonempty_test, e_ne, e_begin, e_end, r_begin, r_end. simpl.
+  split; [rewrite Nat.eqb_sym|]; reflexivity.
+Qed.
+
 End Proofs.
